@@ -68,4 +68,17 @@ example :
     r.2.res.isAbort = true ∧ r.1.s.order = [2] ∧ absVal r.1.s 2 = some 20 ∧ r.1.s.hs 3 = none ∧ r.1.s.hs 202 = none := by
   decide
 
+/-- non-vacuity for a callback that panics *after* it has worked on its guards (`latePanic`; `C15_evict_panic` quantifies over
+all scripts): it removes the value of the first candidate, replaces the second, then panics — the panic reaches the caller,
+the emptied entry is gone and not left behind as a placeholder, the replacement is committed, nothing stays locked -/
+example :
+    let a0 : Api := Api.init .hashMap
+    let a1 := ((a0.exec (.lock .wait 1 1 .none 100)).1.exec (.op 1 (.insert 10))).1
+    let a2 := ((a1.exec (.lock .wait 2 2 .none 100)).1.exec (.op 2 (.insert 20))).1
+    let a3 := ((a2.exec (.drop 1)).1.exec (.drop 2)).1
+    let r := a3.exec (.lock .wait 3 9 (.soft 1 [⟨[.rm, .set 21], false, .latePanic⟩]) 200)
+    r.2.res.isAbort = true ∧ r.1.s.order = [2] ∧ absVal r.1.s 2 = some 21 ∧ r.1.s.hs 3 = none ∧
+      r.1.s.hs 200 = none ∧ r.1.s.hs 201 = none := by
+  decide
+
 end Lockable
